@@ -87,6 +87,18 @@ FS_RESERVED = {'cur', 'new', 'tmp', 'maildirfolder', 'dovecot-uidlist',
                'subscriptions.lock', 'dovecot.sieve'}
 
 
+def unstorable(kind: str, name: str) -> bool:
+    """Names a maildir layout has no directory for: refused, nothing
+    changes."""
+    parts = name.split('/')
+    if kind == 'fs':
+        return any(c in FS_RESERVED for c in parts)
+    if kind == '++':
+        # '.' separates the levels in the folder's directory name
+        return any('.' in c for c in parts)
+    return False
+
+
 def probe_alphabet():
     R = []   # reads
     for op in ('LIST', 'LSUB'):
@@ -246,8 +258,7 @@ class Model:
             elif n.endswith('/') and n != '/':
                 exp_conds = {'OK', 'NO'}
                 strict = False
-            elif self.kind == 'fs' and any(
-                    c in FS_RESERVED for c in n.split('/')):
+            elif unstorable(self.kind, n):
                 # with nested directories these names are the directories a
                 # maildir consists of: they cannot be mailboxes
                 exp_conds = {'NO'}
@@ -340,8 +351,7 @@ class Model:
                 or ns.is_inbox(names[1].split('/')[0])):
             # maildir: the superior folders of the new name must exist
             exp_conds = exp_conds | {'NO'}
-        if self.kind == 'fs' and op == 'RENAME' and any(
-                c in FS_RESERVED for c in names[1].split('/')):
+        if op == 'RENAME' and unstorable(self.kind, names[1]):
             exp_conds = {'NO'}
             new_names = set(m.names)
             ident_moves = {}
